@@ -190,7 +190,7 @@ func checkC02(c *Check) {
 			c.Cond(found && v, "hold-iff-unbound", name+": emit", f.Pos(p), "only while the object has a login", "the delivered event is emitted on a path where the session is not known to be bound")
 			dom := false
 			for _, fl := range flushes {
-				if sameOrg(fl.U, f.U) && dominatesInstr(fl.Ins, f.Ins) {
+				if sameOrg(fl.U, f.U) && t.Before(fl, f) {
 					dom = true
 				}
 			}
@@ -216,7 +216,7 @@ func checkC02(c *Check) {
 		name := "login scan callback " + cb.Name()
 		var binds, flushes []TFact
 		for _, f := range t.Facts {
-			if f.Fn == cb && f.EP == m.EP {
+			if f.Within(cb) && f.EP == m.EP {
 				if f.Kind == "bind" {
 					binds = append(binds, f)
 				}
@@ -226,10 +226,14 @@ func checkC02(c *Check) {
 			}
 		}
 		c.Floor("bind sites in the login scan", 1, len(binds))
-		isFlushOf := func(u *Org) func(ssa.Instruction) bool {
+		// flush facts of object u, lifted to function fn
+		isFlushOfIn := func(u *Org, fn *ssa.Function) func(ssa.Instruction) bool {
 			return func(in ssa.Instruction) bool {
 				for _, fl := range flushes {
-					if fl.Ins == in && sameOrg(fl.U, u) {
+					if !sameOrg(fl.U, u) {
+						continue
+					}
+					if l := fl.LiftTo(fn); l != nil && l == in && (fl.Fn == fn || t.unavoidableBelow(fl, fn)) {
 						return true
 					}
 				}
@@ -237,7 +241,19 @@ func checkC02(c *Check) {
 			}
 		}
 		for _, b := range binds {
-			miss := searchAvoiding(cb, b.Ins, isReturn, isFlushOf(b.U))
+			// from the bind to the end of its function, then of each caller up
+			// to the callback: every path flushes the same object's queue
+			cur, fn, level := b.Ins, b.Fn, len(b.Frames)
+			var miss ssa.Instruction
+			for {
+				miss = searchAvoiding(fn, cur, isReturn, isFlushOfIn(b.U, fn))
+				if miss == nil || fn == cb || level == 0 {
+					break
+				}
+				level--
+				cur = b.Frames[level]
+				fn = cur.Parent()
+			}
 			c.Cond(miss == nil, "bind-implies-flush", name+": bind", b.Pos(p), "every path from the bind to the end of the callback flushes the same object's queue (under the same lock)", "after a login is bound the events held for its session may stay in the queue: they are never emitted")
 		}
 		// returns
@@ -247,7 +263,7 @@ func checkC02(c *Check) {
 			}
 			afterBind := false
 			for _, b := range binds {
-				if dominatesInstr(b.Ins, rf.Ins) {
+				if bl := b.LiftTo(cb); bl != nil && bl != rf.Ins && dominatesInstr(bl, rf.Ins) && (b.Fn == cb || t.unavoidableBelow(b, cb)) {
 					afterBind = true
 				}
 			}
@@ -264,9 +280,10 @@ func checkC02(c *Check) {
 		var flag *ssa.Alloc
 		fr := NewResolver(p)
 		for _, b := range binds {
+			bl := b.LiftTo(cb)
 			allInstrs(cb, func(in ssa.Instruction) {
 				st, ok := in.(*ssa.Store)
-				if !ok {
+				if !ok || bl == nil {
 					return
 				}
 				k, isC := st.Val.(*ssa.Const)
@@ -274,7 +291,7 @@ func checkC02(c *Check) {
 					return
 				}
 				o := fr.Of(st.Addr)
-				if o.K == "cell" && (dominatesInstr(b.Ins, st) || dominatesInstr(st, b.Ins)) {
+				if o.K == "cell" && (dominatesInstr(bl, st) || dominatesInstr(st, bl)) {
 					flag = o.V.(*ssa.Alloc)
 				}
 			})
@@ -285,10 +302,10 @@ func checkC02(c *Check) {
 			}
 			ok := false
 			for _, g := range s.Guards {
-				if g.Op != "value" || g.Pos {
+				if g.Pos {
 					continue
 				}
-				if u, isU := g.V.(*ssa.UnOp); isU && flag != nil && cellOf(g.R, u) == flag {
+				if flag != nil && flagCellOf(g) == flag {
 					ok = true
 				}
 			}
@@ -298,7 +315,7 @@ func checkC02(c *Check) {
 					if k, isC := st.Val.(*ssa.Const); isC && k.Value != nil && k.Value.String() == "true" {
 						dom := false
 						for _, b := range binds {
-							if b.Fn == st.Parent() && (dominatesInstr(b.Ins, st) || dominatesInstr(st, b.Ins)) {
+							if bl := b.LiftTo(st.Parent()); bl != nil && (dominatesInstr(bl, st) || dominatesInstr(st, bl)) {
 								dom = true
 							}
 						}
@@ -325,7 +342,7 @@ func checkC02(c *Check) {
 		var bindF, delF *TFact
 		for i := range t.Facts {
 			f := t.Facts[i]
-			if f.EP != s.EP || !inFnOrHelper(f, s.Fn) {
+			if f.EP != s.EP || !inFnOrHelper(f, s.Fn) || !samePath(f, s) {
 				continue
 			}
 			switch f.Kind {
@@ -346,7 +363,7 @@ func checkC02(c *Check) {
 			}
 		}
 		for _, f := range t.Of("append") {
-			if f.EP == s.EP && sameOrg(f.U, s.Val) && inFnOrHelper(f, s.Fn) {
+			if f.EP == s.EP && sameOrg(f.U, s.Val) && inFnOrHelper(f, s.Fn) && samePath(f, s) {
 				na++
 			}
 		}
@@ -632,4 +649,73 @@ func inFnOrHelper(f TFact, fn *ssa.Function) bool {
 		return true
 	}
 	return false
+}
+
+
+// flagCellOf: the local boolean variable a guard atom tests: a load of the
+// variable, or result i of a repository function all of whose returns give
+// the value of one such variable (the flag handed out of a helper).
+func flagCellOf(g GAtom) *ssa.Alloc {
+	switch v := g.V.(type) {
+	case *ssa.UnOp:
+		if g.Op != "value" {
+			return nil
+		}
+		return cellOf(g.R, v)
+	case *ssa.Extract:
+		cl, ok := v.Tuple.(*ssa.Call)
+		if !ok {
+			return nil
+		}
+		return returnedCell(g.R.P, cl, v.Index)
+	case *ssa.Call:
+		return returnedCell(g.R.P, v, 0)
+	}
+	return nil
+}
+
+func returnedCell(p *Prog, cl *ssa.Call, idx int) *ssa.Alloc {
+	sc := staticCallee(cl.Common())
+	if sc == nil || !InRepo(sc) || sc.Blocks == nil {
+		return nil
+	}
+	var cell *ssa.Alloc
+	okAll := true
+	r := NewResolver(p)
+	allInstrs(sc, func(in ssa.Instruction) {
+		ret, isRet := in.(*ssa.Return)
+		if !isRet || idx >= len(ret.Results) {
+			return
+		}
+		u, isU := ret.Results[idx].(*ssa.UnOp)
+		if !isU {
+			okAll = false
+			return
+		}
+		a := cellOf(r, u)
+		if a == nil || (cell != nil && a != cell) {
+			okAll = false
+			return
+		}
+		cell = a
+	})
+	if !okAll {
+		return nil
+	}
+	return cell
+}
+
+
+// samePath: some path of s's function passes both facts (one reaches the
+// other); facts on different branches that each return do not belong to the
+// same code path.
+func samePath(f, s TFact) bool {
+	fl := f.LiftTo(s.Fn)
+	if fl == nil {
+		return f.Fn == s.Fn
+	}
+	if fl == s.Ins {
+		return true
+	}
+	return reachesInstr(fl, s.Ins) || reachesInstr(s.Ins, fl)
 }
